@@ -1,23 +1,86 @@
 //! C16 — sparse-matrix operations agree with their dense meaning.
+//!
+//! One channel per public operation of `src/algebra/csc/{core,matrix_math,block_concatenate}.rs`
+//! and per kernel of `src/algebra/vecmath.rs`.  `run_*` executes the real implementation,
+//! `oracle_*` states the dense meaning directly (independent of the Lean model).
 use clarabel::algebra::*;
+use clarabel::verif_hooks::csc as hook;
 use vharness::gen::{self, Vals};
-use vharness::proto::fmt_csc;
+use vharness::proto::{fb, ff, ffs, fmt_csc, fus};
 use vharness::*;
 
-fn dense_of_resp(out: &str) -> Option<(CscMatrix<f64>, Vec<Vec<f64>>)> {
-    let r = Req::parse(&format!("x {}", out))?;
+type Dense = Vec<Vec<f64>>;
+
+fn resp(out: &str) -> Option<Req> {
+    if out.starts_with("panic") || out.starts_with("err") {
+        return None;
+    }
+    Req::parse(&format!("x {}", out))
+}
+fn dense_of_resp(out: &str) -> Option<(CscMatrix<f64>, Dense)> {
+    let r = resp(out)?;
     if !r.has("colptr") {
         return None;
     }
     let a = r.csc("");
+    if !welldim(&a) || !a.rowval.iter().all(|&r| r < a.m) {
+        return None;
+    }
     Some((a.clone(), gen::to_dense(&a)))
 }
-
 fn canonical(a: &CscMatrix<f64>) -> bool {
-    a.check_format().is_ok()
+    a.check_format().is_ok() && a.colptr[0] == 0
+}
+/// check_dimensions passes and colptr[0] = 0 (the model's domain)
+fn welldim(a: &CscMatrix<f64>) -> bool {
+    a.rowval.len() == a.nzval.len()
+        && a.colptr.len() == a.n + 1
+        && a.colptr[0] == 0
+        && a.colptr[a.n] == a.rowval.len()
+        && a.colptr.windows(2).all(|w| w[0] <= w[1])
+}
+fn rows_ok(a: &CscMatrix<f64>) -> bool {
+    a.rowval.iter().all(|&r| r < a.m)
+}
+fn all_finite(xs: &[f64]) -> bool {
+    xs.iter().all(|x| x.is_finite())
+}
+fn close(got: f64, want: f64, scale: f64) -> bool {
+    if got == want {
+        return true;
+    }
+    if !got.is_finite() || !want.is_finite() {
+        return got.is_nan() == want.is_nan() && (got.is_nan() || got == want);
+    }
+    (got - want).abs() <= 1e-12 * scale + 1e-300
+}
+fn same_dense(d1: &Dense, d2: &Dense) -> Result<(), String> {
+    if d1.len() != d2.len() {
+        return Err("row count".into());
+    }
+    for i in 0..d1.len() {
+        if d1[i].len() != d2[i].len() {
+            return Err("col count".into());
+        }
+        for j in 0..d1[i].len() {
+            if d1[i][j] != d2[i][j] && !(d1[i][j].is_nan() && d2[i][j].is_nan()) {
+                return Err(format!("entry ({},{}) = {} expected {}", i, j, d1[i][j], d2[i][j]));
+            }
+        }
+    }
+    Ok(())
+}
+fn distinct_positions(a: &CscMatrix<f64>) -> usize {
+    let mut s = std::collections::BTreeSet::new();
+    for c in 0..a.n {
+        for k in a.colptr[c]..a.colptr[c + 1] {
+            s.insert((a.rowval[k], c));
+        }
+    }
+    s.len()
 }
 
-// ---------------------------------------------------------------- channels
+// ---------------------------------------------------------------- exemplar channels
 
 fn run_check_format(r: &Req) -> String {
     match r.csc("").check_format() {
@@ -59,6 +122,7 @@ fn oracle_to_triu(r: &Req, out: &str) -> Result<(), String> {
     if !canonical(&t) {
         return Err("result not canonical".into());
     }
+    let mut kept = 0;
     for i in 0..a.m {
         for j in 0..a.n {
             let want = if i <= j { da[i][j] } else { 0.0 };
@@ -67,6 +131,12 @@ fn oracle_to_triu(r: &Req, out: &str) -> Result<(), String> {
             }
         }
     }
+    for c in 0..a.n {
+        kept += a.rowval[a.colptr[c]..a.colptr[c + 1]].iter().filter(|&&r| r <= c).count();
+    }
+    if t.nnz() != kept {
+        return Err(format!("nnz {} expected {}", t.nnz(), kept));
+    }
     if !t.is_triu() {
         return Err("is_triu(to_triu(A)) is false".into());
     }
@@ -74,11 +144,11 @@ fn oracle_to_triu(r: &Req, out: &str) -> Result<(), String> {
 }
 
 fn run_is_triu(r: &Req) -> String {
-    proto::fb(r.csc("").is_triu()).to_string()
+    fb(r.csc("").is_triu()).to_string()
 }
 fn oracle_is_triu(r: &Req, out: &str) -> Result<(), String> {
     let a = r.csc("");
-    if !canonical(&a) {
+    if !welldim(&a) {
         return Ok(());
     }
     let mut want = true;
@@ -102,11 +172,11 @@ fn run_select_rows(r: &Req) -> String {
 fn oracle_select_rows(r: &Req, out: &str) -> Result<(), String> {
     let a = r.csc("");
     let keep = r.bs("keep");
-    if !canonical(&a) || keep.len() != a.m {
+    if !welldim(&a) || !rows_ok(&a) || keep.len() != a.m {
         return Ok(());
     }
     let (t, dt) = dense_of_resp(out).ok_or("no matrix returned")?;
-    if !canonical(&t) {
+    if canonical(&a) && !canonical(&t) {
         return Err("result not canonical".into());
     }
     let da = gen::to_dense(&a);
@@ -136,11 +206,11 @@ fn run_transpose(r: &Req) -> String {
 }
 fn oracle_transpose(r: &Req, out: &str) -> Result<(), String> {
     let a = r.csc("");
-    if !canonical(&a) {
+    if !welldim(&a) || !rows_ok(&a) {
         return Ok(());
     }
     let (t, dt) = dense_of_resp(out).ok_or("no matrix returned")?;
-    if !canonical(&t) {
+    if canonical(&a) && !canonical(&t) {
         return Err("result not canonical".into());
     }
     let da = gen::to_dense(&a);
@@ -157,25 +227,907 @@ fn oracle_transpose(r: &Req, out: &str) -> Result<(), String> {
     Ok(())
 }
 
+// ---------------------------------------------------------------- constructors
+
+fn rows_of(r: &Req) -> Vec<Vec<f64>> {
+    (0..r.u("nrows")).map(|i| r.fs(&format!("r{}", i))).collect()
+}
+fn run_from_rows(r: &Req) -> String {
+    let rows = rows_of(r);
+    let a: CscMatrix<f64> = CscMatrix::from(rows.iter().map(|r| r.iter()));
+    fmt_csc(&a)
+}
+fn oracle_from_rows(r: &Req, out: &str) -> Result<(), String> {
+    let rows = rows_of(r);
+    let n = rows.first().map(|r| r.len()).unwrap_or(0);
+    if !rows.iter().all(|r| r.len() == n) {
+        return if out.starts_with("panic") { Ok(()) } else { Err("ragged rows accepted".into()) };
+    }
+    let (t, dt) = dense_of_resp(out).ok_or("no matrix returned")?;
+    if !canonical(&t) {
+        return Err("result not canonical".into());
+    }
+    if t.m != rows.len() || t.n != n {
+        return Err("shape".into());
+    }
+    same_dense(&dt, &rows)?;
+    let nz = rows.iter().flatten().filter(|&&v| v != 0.0).count();
+    if t.nnz() != nz || t.nzval.iter().any(|&v| v == 0.0) {
+        return Err("explicit zeros stored / nnz".into());
+    }
+    Ok(())
+}
+
+fn run_new_from_triplets(r: &Req) -> String {
+    fmt_csc(&CscMatrix::new_from_triplets(r.u("m"), r.u("n"), r.us("I"), r.us("J"), r.fs("V")))
+}
+fn oracle_new_from_triplets(r: &Req, out: &str) -> Result<(), String> {
+    let (m, n, i, j, v) = (r.u("m"), r.u("n"), r.us("I"), r.us("J"), r.fs("V"));
+    if i.len() != j.len() || i.len() != v.len() {
+        return if out.starts_with("panic") { Ok(()) } else { Err("length mismatch accepted".into()) };
+    }
+    if !i.iter().all(|&x| x < m) || !j.iter().all(|&x| x < n) {
+        return Ok(()); // out-of-range triplets: nothing is promised
+    }
+    let (t, dt) = dense_of_resp(out).ok_or("no matrix returned")?;
+    if !canonical(&t) {
+        return Err("result not canonical".into());
+    }
+    if t.m != m || t.n != n {
+        return Err("shape".into());
+    }
+    let mut want = vec![vec![0.0; n]; m];
+    let mut pos = std::collections::BTreeSet::new();
+    for k in 0..i.len() {
+        want[i[k]][j[k]] += v[k];
+        pos.insert((i[k], j[k]));
+    }
+    same_dense(&dt, &want)?;
+    if t.nnz() != pos.len() {
+        return Err(format!("nnz {} expected {} distinct positions", t.nnz(), pos.len()));
+    }
+    Ok(())
+}
+
+fn run_spalloc(r: &Req) -> String {
+    fmt_csc(&CscMatrix::<f64>::spalloc((r.u("m"), r.u("n")), r.u("nnz")))
+}
+fn oracle_spalloc(r: &Req, out: &str) -> Result<(), String> {
+    let t = resp(out).ok_or("no matrix")?.csc("");
+    let nnz = r.u("nnz");
+    if t.m != r.u("m") || t.n != r.u("n") || t.nnz() != nnz || t.rowval.len() != nnz || t.nzval.len() != nnz {
+        return Err("shape / allocation".into());
+    }
+    if t.nzval.iter().any(|&v| v != 0.0) || t.colptr.len() != t.n + 1 {
+        return Err("values / colptr".into());
+    }
+    Ok(())
+}
+fn run_zeros(r: &Req) -> String {
+    fmt_csc(&CscMatrix::<f64>::zeros((r.u("m"), r.u("n"))))
+}
+fn oracle_zeros(r: &Req, out: &str) -> Result<(), String> {
+    let (t, dt) = dense_of_resp(out).ok_or("no matrix")?;
+    if !canonical(&t) || t.m != r.u("m") || t.n != r.u("n") || t.nnz() != 0 {
+        return Err("zeros: shape/canonical/nnz".into());
+    }
+    same_dense(&dt, &vec![vec![0.0; t.n]; t.m])
+}
+fn run_identity(r: &Req) -> String {
+    fmt_csc(&CscMatrix::<f64>::identity(r.u("n")))
+}
+fn oracle_identity(r: &Req, out: &str) -> Result<(), String> {
+    let n = r.u("n");
+    let (t, dt) = dense_of_resp(out).ok_or("no matrix")?;
+    if !canonical(&t) || t.m != n || t.n != n || t.nnz() != n {
+        return Err("identity: shape/canonical/nnz".into());
+    }
+    let want: Dense = (0..n).map(|i| (0..n).map(|j| if i == j { 1.0 } else { 0.0 }).collect()).collect();
+    same_dense(&dt, &want)
+}
+
+// ---------------------------------------------------------------- core.rs operations
+
+fn run_dropzeros(r: &Req) -> String {
+    let mut a = r.csc("");
+    a.dropzeros();
+    fmt_csc(&a)
+}
+fn oracle_dropzeros(r: &Req, out: &str) -> Result<(), String> {
+    let a = r.csc("");
+    if !welldim(&a) || !rows_ok(&a) {
+        return Ok(());
+    }
+    let (t, dt) = dense_of_resp(out).ok_or("no matrix returned")?;
+    if canonical(&a) && !canonical(&t) {
+        return Err("result not canonical".into());
+    }
+    if (t.m, t.n) != (a.m, a.n) {
+        return Err("shape".into());
+    }
+    same_dense(&dt, &gen::to_dense(&a))?;
+    if t.nzval.iter().any(|&v| v == 0.0) {
+        return Err("a zero survived".into());
+    }
+    let want = a.nzval.iter().filter(|&&v| v != 0.0).count();
+    if t.nnz() != want {
+        return Err(format!("nnz {} expected {}", t.nnz(), want));
+    }
+    Ok(())
+}
+
+fn run_findnz(r: &Req) -> String {
+    let (i, j, v) = hook::findnz(&r.csc(""));
+    format!("I={} J={} V={}", fus(&i), fus(&j), ffs(&v))
+}
+fn oracle_findnz(r: &Req, out: &str) -> Result<(), String> {
+    let a = r.csc("");
+    if !welldim(&a) || !rows_ok(&a) {
+        return Ok(());
+    }
+    let o = resp(out).ok_or("no triplets")?;
+    let (i, j, v) = (o.us("I"), o.us("J"), o.fs("V"));
+    if i.len() != a.nnz() || j.len() != a.nnz() || v.len() != a.nnz() {
+        return Err("lengths".into());
+    }
+    let mut d = vec![vec![0.0; a.n]; a.m];
+    for k in 0..i.len() {
+        if j[k] >= a.n {
+            return Err("column out of range".into());
+        }
+        d[i[k]][j[k]] += v[k];
+    }
+    same_dense(&d, &gen::to_dense(&a))
+}
+
+fn run_canonicalize(r: &Req) -> String {
+    let mut a = r.csc("");
+    match a.canonicalize() {
+        Ok(()) => fmt_csc(&a),
+        Err(e) => format!("err:{:?}", e),
+    }
+}
+fn oracle_canonicalize(r: &Req, out: &str) -> Result<(), String> {
+    let a = r.csc("");
+    if !welldim(&a) {
+        return Ok(());
+    }
+    if !rows_ok(&a) {
+        return Ok(());
+    }
+    let (t, dt) = dense_of_resp(out).ok_or("well-dimensioned input rejected")?;
+    if !canonical(&t) {
+        return Err("result not canonical".into());
+    }
+    if (t.m, t.n) != (a.m, a.n) {
+        return Err("shape".into());
+    }
+    same_dense(&dt, &gen::to_dense(&a))?;
+    if t.nnz() != distinct_positions(&a) {
+        return Err(format!("nnz {} expected {}", t.nnz(), distinct_positions(&a)));
+    }
+    Ok(())
+}
+
+fn run_is_equal_sparsity(r: &Req) -> String {
+    fb(r.csc("a").is_equal_sparsity(&r.csc("b"))).to_string()
+}
+fn oracle_is_equal_sparsity(r: &Req, out: &str) -> Result<(), String> {
+    let (a, b) = (r.csc("a"), r.csc("b"));
+    if !canonical(&a) || !canonical(&b) {
+        return Ok(());
+    }
+    let same = (a.m, a.n) == (b.m, b.n) && {
+        let (da, db) = (pattern(&a), pattern(&b));
+        da == db
+    };
+    if same != (out == "1") {
+        return Err(format!("is_equal_sparsity={} expected {}", out, same));
+    }
+    Ok(())
+}
+fn pattern(a: &CscMatrix<f64>) -> Vec<(usize, usize)> {
+    let mut p = vec![];
+    for c in 0..a.n {
+        for k in a.colptr[c]..a.colptr[c + 1] {
+            p.push((a.rowval[k], c));
+        }
+    }
+    p
+}
+fn run_check_equal_sparsity(r: &Req) -> String {
+    match r.csc("a").check_equal_sparsity(&r.csc("b")) {
+        Ok(()) => "ok".into(),
+        Err(e) => format!("err:{:?}", e),
+    }
+}
+fn oracle_check_equal_sparsity(r: &Req, out: &str) -> Result<(), String> {
+    let (a, b) = (r.csc("a"), r.csc("b"));
+    if !canonical(&a) || !canonical(&b) {
+        return Ok(());
+    }
+    let want = if (a.m, a.n) != (b.m, b.n) {
+        "err:IncompatibleDimension"
+    } else if pattern(&a) != pattern(&b) {
+        "err:SparsityMismatch"
+    } else {
+        "ok"
+    };
+    if out != want {
+        return Err(format!("{} expected {}", out, want));
+    }
+    Ok(())
+}
+
+fn run_get_entry(r: &Req) -> String {
+    match r.csc("").get_entry((r.u("row"), r.u("col"))) {
+        Some(v) => format!("some={}", ff(v)),
+        None => "none".into(),
+    }
+}
+fn oracle_get_entry(r: &Req, out: &str) -> Result<(), String> {
+    let a = r.csc("");
+    let (row, col) = (r.u("row"), r.u("col"));
+    if !canonical(&a) {
+        return Ok(());
+    }
+    if row >= a.m || col >= a.n {
+        return if out.starts_with("panic") { Ok(()) } else { Err("out-of-bounds index accepted".into()) };
+    }
+    let mut want = "none".to_string();
+    for k in a.colptr[col]..a.colptr[col + 1] {
+        if a.rowval[k] == row {
+            want = format!("some={}", ff(a.nzval[k]));
+        }
+    }
+    if out != want {
+        return Err(format!("{} expected {}", out, want));
+    }
+    Ok(())
+}
+
+fn run_set_entry(r: &Req) -> String {
+    let mut a = r.csc("");
+    a.set_entry((r.u("row"), r.u("col")), r.f("v"));
+    fmt_csc(&a)
+}
+fn oracle_set_entry(r: &Req, out: &str) -> Result<(), String> {
+    let a = r.csc("");
+    let (row, col, v) = (r.u("row"), r.u("col"), r.f("v"));
+    if !canonical(&a) {
+        return Ok(());
+    }
+    if row >= a.m || col >= a.n {
+        return if out.starts_with("panic") { Ok(()) } else { Err("out-of-bounds index accepted".into()) };
+    }
+    let (t, dt) = dense_of_resp(out).ok_or("no matrix returned")?;
+    if !canonical(&t) || (t.m, t.n) != (a.m, a.n) {
+        return Err("result not canonical / shape".into());
+    }
+    let mut want = gen::to_dense(&a);
+    want[row][col] = v;
+    same_dense(&dt, &want)?;
+    let existed = a.get_entry((row, col)).is_some();
+    let want_nnz = a.nnz() + if !existed && v != 0.0 { 1 } else { 0 };
+    if t.nnz() != want_nnz {
+        return Err(format!("nnz {} expected {} (no new zeros / no loss)", t.nnz(), want_nnz));
+    }
+    // round trip
+    let got = t.get_entry((row, col));
+    if existed || v != 0.0 {
+        if got.map(|x| x.to_bits()) != Some(v.to_bits()) && !(v.is_nan() && got.map(|x| x.is_nan()) == Some(true)) {
+            return Err(format!("get_entry after set_entry = {:?}", got));
+        }
+    } else if got.is_some() {
+        return Err("a new structural zero was inserted".into());
+    }
+    Ok(())
+}
+
+fn run_index_to_coord(r: &Req) -> String {
+    let (row, col) = r.csc("").index_to_coord(r.u("idx"));
+    format!("row={} col={}", row, col)
+}
+fn oracle_index_to_coord(r: &Req, out: &str) -> Result<(), String> {
+    let a = r.csc("");
+    let idx = r.u("idx");
+    if !welldim(&a) {
+        return Ok(());
+    }
+    if idx >= a.nnz() {
+        return if out.starts_with("panic") { Ok(()) } else { Err("out-of-bounds index accepted".into()) };
+    }
+    let o = resp(out).ok_or("no coordinate")?;
+    let (row, col) = (o.u("row"), o.u("col"));
+    if col >= a.n || !(a.colptr[col] <= idx && idx < a.colptr[col + 1]) || a.rowval[idx] != row {
+        return Err(format!("index {} is not stored at ({},{})", idx, row, col));
+    }
+    Ok(())
+}
+
+// ---------------------------------------------------------------- matrix_math.rs
+
+fn gemv_args(r: &Req) -> (CscMatrix<f64>, Vec<f64>, Vec<f64>, f64, f64) {
+    (r.csc(""), r.fs("y"), r.fs("x"), r.f("a"), r.f("b"))
+}
+fn run_gemv_n(r: &Req) -> String {
+    let (a_, mut y, x, a, b) = gemv_args(r);
+    hook::gemv_n(&a_, &mut y, &x, a, b);
+    format!("y={}", ffs(&y))
+}
+fn run_gemv_t(r: &Req) -> String {
+    let (a_, mut y, x, a, b) = gemv_args(r);
+    hook::gemv_t(&a_, &mut y, &x, a, b);
+    format!("y={}", ffs(&y))
+}
+fn run_symv(r: &Req) -> String {
+    let (a_, mut y, x, a, b) = gemv_args(r);
+    // the implementation indexes unchecked: never hand it an out-of-range row
+    assert!(welldim(&a_) && a_.rowval.iter().all(|&r| r < a_.n), "harness: symv input outside the safe domain");
+    hook::symv(&a_, &mut y, &x, a, b);
+    format!("y={}", ffs(&y))
+}
+/// y_out = a·D·x + b·y with D dense (mr × mc); componentwise rounding allowance
+fn check_axpby(d: &Dense, mr: usize, mc: usize, y0: &[f64], x: &[f64], a: f64, b: f64, out: &str) -> Result<(), String> {
+    let o = resp(out).ok_or("no vector returned")?;
+    let y = o.fs("y");
+    if y.len() != y0.len() {
+        return Err("length changed".into());
+    }
+    if !all_finite(y0) && b == 0.0 {
+        // b = 0 overwrites y (NaN/Inf must not leak)
+    } else if !all_finite(y0) {
+        return Ok(());
+    }
+    if !all_finite(x) || !a.is_finite() || !b.is_finite() || !d.iter().all(|r| all_finite(r)) {
+        return Ok(());
+    }
+    for i in 0..mr.min(y.len()) {
+        let by = if b == 0.0 { 0.0 } else { b * y0[i] };
+        let mut acc = 0.0;
+        let mut scale = by.abs();
+        for j in 0..mc {
+            acc += d[i][j] * x[j];
+            scale += (a * d[i][j] * x[j]).abs();
+        }
+        let want = by + a * acc;
+        if !close(y[i], want, scale) {
+            return Err(format!("y[{}] = {:e} expected {:e}", i, y[i], want));
+        }
+    }
+    Ok(())
+}
+fn oracle_gemv_n(r: &Req, out: &str) -> Result<(), String> {
+    let (a_, y, x, a, b) = gemv_args(r);
+    if !welldim(&a_) || !rows_ok(&a_) || x.len() != a_.n || y.len() != a_.m {
+        return Ok(());
+    }
+    check_axpby(&gen::to_dense(&a_), a_.m, a_.n, &y, &x, a, b, out)
+}
+fn oracle_gemv_t(r: &Req, out: &str) -> Result<(), String> {
+    let (a_, y, x, a, b) = gemv_args(r);
+    if !welldim(&a_) || !rows_ok(&a_) || x.len() != a_.m || y.len() != a_.n {
+        return Ok(());
+    }
+    let d = gen::to_dense(&a_);
+    let dt: Dense = (0..a_.n).map(|j| (0..a_.m).map(|i| d[i][j]).collect()).collect();
+    check_axpby(&dt, a_.n, a_.m, &y, &x, a, b, out)
+}
+fn sym_dense(a: &CscMatrix<f64>) -> Dense {
+    let d = gen::to_dense(a);
+    let n = a.n;
+    (0..n)
+        .map(|i| (0..n).map(|j| if i <= j { d[i][j] } else { d[j][i] }).collect())
+        .collect()
+}
+fn oracle_symv(r: &Req, out: &str) -> Result<(), String> {
+    let (a_, y, x, a, b) = gemv_args(r);
+    if !welldim(&a_) || !rows_ok(&a_) || a_.m != a_.n || x.len() != a_.n || y.len() != a_.n || !a_.is_triu() {
+        return Ok(());
+    }
+    if !all_finite(&y) {
+        return Ok(());
+    }
+    // symv always scales (no b = 0 fast path): use b·y literally
+    let o = resp(out).ok_or("no vector returned")?;
+    let yo = o.fs("y");
+    let d = sym_dense(&a_);
+    if !all_finite(&x) || !a.is_finite() || !b.is_finite() || !d.iter().all(|r| all_finite(r)) {
+        return Ok(());
+    }
+    for i in 0..a_.n {
+        let by = b * y[i];
+        let mut acc = 0.0;
+        let mut scale = by.abs();
+        for j in 0..a_.n {
+            acc += d[i][j] * x[j];
+            scale += (a * d[i][j] * x[j]).abs();
+        }
+        if !close(yo[i], by + a * acc, scale) {
+            return Err(format!("y[{}] = {:e} expected {:e}", i, yo[i], by + a * acc));
+        }
+    }
+    Ok(())
+}
+
+fn run_quad_form(r: &Req) -> String {
+    let a = r.csc("");
+    format!("v={}", ff(a.quad_form(&r.fs("y"), &r.fs("x"))))
+}
+fn oracle_quad_form(r: &Req, out: &str) -> Result<(), String> {
+    let a = r.csc("");
+    let (y, x) = (r.fs("y"), r.fs("x"));
+    if !welldim(&a) || !rows_ok(&a) || a.m != a.n || x.len() != a.n || y.len() != a.n {
+        return Ok(());
+    }
+    if !a.is_triu() {
+        return if out.starts_with("panic") { Ok(()) } else { Err("non-triu input accepted".into()) };
+    }
+    let o = resp(out).ok_or("no value returned")?;
+    let v = o.f("v");
+    let d = sym_dense(&a);
+    if !all_finite(&x) || !all_finite(&y) || !d.iter().all(|r| all_finite(r)) {
+        return Ok(());
+    }
+    let (mut want, mut scale) = (0.0, 0.0);
+    for i in 0..a.n {
+        for j in 0..a.n {
+            want += y[i] * d[i][j] * x[j];
+            scale += (y[i] * d[i][j] * x[j]).abs();
+        }
+    }
+    if !close(v, want, scale) {
+        return Err(format!("quad_form = {:e} expected {:e}", v, want));
+    }
+    Ok(())
+}
+
+fn vec_out(v: &[f64]) -> String {
+    format!("v={}", ffs(v))
+}
+fn run_col_sums(r: &Req) -> String {
+    let mut v = r.fs("v");
+    r.csc("").col_sums(&mut v);
+    vec_out(&v)
+}
+fn run_row_sums(r: &Req) -> String {
+    let mut v = r.fs("v");
+    r.csc("").row_sums(&mut v);
+    vec_out(&v)
+}
+fn run_col_norms(r: &Req) -> String {
+    let mut v = r.fs("v");
+    r.csc("").col_norms(&mut v);
+    vec_out(&v)
+}
+fn run_col_norms_no_reset(r: &Req) -> String {
+    let mut v = r.fs("v");
+    r.csc("").col_norms_no_reset(&mut v);
+    vec_out(&v)
+}
+fn run_col_norms_sym(r: &Req) -> String {
+    let mut v = r.fs("v");
+    r.csc("").col_norms_sym(&mut v);
+    vec_out(&v)
+}
+fn run_col_norms_sym_no_reset(r: &Req) -> String {
+    let mut v = r.fs("v");
+    r.csc("").col_norms_sym_no_reset(&mut v);
+    vec_out(&v)
+}
+fn run_row_norms(r: &Req) -> String {
+    let mut v = r.fs("v");
+    r.csc("").row_norms(&mut v);
+    vec_out(&v)
+}
+fn run_row_norms_no_reset(r: &Req) -> String {
+    let mut v = r.fs("v");
+    r.csc("").row_norms_no_reset(&mut v);
+    vec_out(&v)
+}
+
+/// generic reduction oracle: `want(i)` is the dense statement for output slot i.
+/// `kind`: 0 col sums, 1 row sums, 2 col norms, 3 row norms, 4 sym norms; `reset` says whether
+/// the incoming vector is ignored.
+fn reduction_oracle(r: &Req, out: &str, kind: u8, reset: bool) -> Result<(), String> {
+    let a = r.csc("");
+    let v0 = r.fs("v");
+    let len_want = match kind {
+        0 | 2 => a.n,
+        1 | 3 => a.m,
+        _ => a.n,
+    };
+    if !welldim(&a) || !rows_ok(&a) || v0.len() != len_want || (kind == 4 && a.m != a.n) {
+        return Ok(());
+    }
+    if !all_finite(&a.nzval) || (!reset && !all_finite(&v0)) {
+        return Ok(());
+    }
+    let o = resp(out).ok_or("no vector returned")?;
+    let v = o.fs("v");
+    if v.len() != v0.len() {
+        return Err("length changed".into());
+    }
+    // entry list (duplicates are separate entries for norms; sums add them anyway)
+    let mut ent: Vec<(usize, usize, f64)> = vec![];
+    for c in 0..a.n {
+        for k in a.colptr[c]..a.colptr[c + 1] {
+            ent.push((a.rowval[k], c, a.nzval[k]));
+        }
+    }
+    for i in 0..v.len() {
+        let (want, scale) = match kind {
+            0 => {
+                let s: f64 = ent.iter().filter(|e| e.1 == i).map(|e| e.2).sum();
+                (s, ent.iter().filter(|e| e.1 == i).map(|e| e.2.abs()).sum::<f64>())
+            }
+            1 => {
+                let s: f64 = ent.iter().filter(|e| e.0 == i).map(|e| e.2).sum();
+                (s, ent.iter().filter(|e| e.0 == i).map(|e| e.2.abs()).sum::<f64>())
+            }
+            2 => (ent.iter().filter(|e| e.1 == i).fold(0.0f64, |m, e| m.max(e.2.abs())), 0.0),
+            3 => (ent.iter().filter(|e| e.0 == i).fold(0.0f64, |m, e| m.max(e.2.abs())), 0.0),
+            _ => (ent.iter().filter(|e| e.0 == i || e.1 == i).fold(0.0f64, |m, e| m.max(e.2.abs())), 0.0),
+        };
+        let want = if kind >= 2 && !reset { want.max(v0[i]) } else { want };
+        if !close(v[i], want, scale) {
+            return Err(format!("slot {} = {:e} expected {:e}", i, v[i], want));
+        }
+    }
+    Ok(())
+}
+fn oracle_col_sums(r: &Req, out: &str) -> Result<(), String> { reduction_oracle(r, out, 0, true) }
+fn oracle_row_sums(r: &Req, out: &str) -> Result<(), String> { reduction_oracle(r, out, 1, true) }
+fn oracle_col_norms(r: &Req, out: &str) -> Result<(), String> { reduction_oracle(r, out, 2, true) }
+fn oracle_col_norms_nr(r: &Req, out: &str) -> Result<(), String> { reduction_oracle(r, out, 2, false) }
+fn oracle_row_norms(r: &Req, out: &str) -> Result<(), String> { reduction_oracle(r, out, 3, true) }
+fn oracle_row_norms_nr(r: &Req, out: &str) -> Result<(), String> { reduction_oracle(r, out, 3, false) }
+fn oracle_sym_norms(r: &Req, out: &str) -> Result<(), String> { reduction_oracle(r, out, 4, true) }
+fn oracle_sym_norms_nr(r: &Req, out: &str) -> Result<(), String> { reduction_oracle(r, out, 4, false) }
+
+fn run_scale(r: &Req) -> String {
+    let mut a = r.csc("");
+    a.scale(r.f("c"));
+    fmt_csc(&a)
+}
+fn run_negate(r: &Req) -> String {
+    let mut a = r.csc("");
+    a.negate();
+    fmt_csc(&a)
+}
+fn run_lscale(r: &Req) -> String {
+    let mut a = r.csc("");
+    a.lscale(&r.fs("l"));
+    fmt_csc(&a)
+}
+fn run_rscale(r: &Req) -> String {
+    let mut a = r.csc("");
+    a.rscale(&r.fs("r"));
+    fmt_csc(&a)
+}
+fn run_lrscale(r: &Req) -> String {
+    let mut a = r.csc("");
+    a.lrscale(&r.fs("l"), &r.fs("r"));
+    fmt_csc(&a)
+}
+/// result has the same pattern and entry (i,j) = l_i · A_ij · r_j
+fn scaling_oracle(r: &Req, out: &str, l: Option<Vec<f64>>, rr: Option<Vec<f64>>, c: f64) -> Result<(), String> {
+    let a = r.csc("");
+    if !canonical(&a) {
+        return Ok(());
+    }
+    if l.as_ref().map(|l| l.len() != a.m).unwrap_or(false) || rr.as_ref().map(|x| x.len() != a.n).unwrap_or(false) {
+        return Ok(());
+    }
+    let t = resp(out).ok_or("no matrix returned")?.csc("");
+    if (t.m, t.n) != (a.m, a.n) || t.colptr != a.colptr || t.rowval != a.rowval || t.nzval.len() != a.nzval.len() {
+        return Err("sparsity pattern changed".into());
+    }
+    for col in 0..a.n {
+        for k in a.colptr[col]..a.colptr[col + 1] {
+            let li = l.as_ref().map(|l| l[a.rowval[k]]).unwrap_or(1.0);
+            let rj = rr.as_ref().map(|x| x[col]).unwrap_or(1.0);
+            let want = c * li * a.nzval[k] * rj;
+            if !want.is_finite() {
+                continue;
+            }
+            if (t.nzval[k] - want).abs() > 4.0 * f64::EPSILON * want.abs() + 1e-300 {
+                return Err(format!("entry {} = {:e} expected {:e}", k, t.nzval[k], want));
+            }
+        }
+    }
+    Ok(())
+}
+fn oracle_scale(r: &Req, out: &str) -> Result<(), String> { scaling_oracle(r, out, None, None, r.f("c")) }
+fn oracle_negate(r: &Req, out: &str) -> Result<(), String> { scaling_oracle(r, out, None, None, -1.0) }
+fn oracle_lscale(r: &Req, out: &str) -> Result<(), String> { scaling_oracle(r, out, Some(r.fs("l")), None, 1.0) }
+fn oracle_rscale(r: &Req, out: &str) -> Result<(), String> { scaling_oracle(r, out, None, Some(r.fs("r")), 1.0) }
+fn oracle_lrscale(r: &Req, out: &str) -> Result<(), String> {
+    scaling_oracle(r, out, Some(r.fs("l")), Some(r.fs("r")), 1.0)
+}
+
+// ---------------------------------------------------------------- block_concatenate.rs
+
+fn fmt_cat(res: Result<CscMatrix<f64>, MatrixConcatenationError>) -> String {
+    match res {
+        Ok(m) => fmt_csc(&m),
+        Err(e) => format!("err:{:?}", e),
+    }
+}
+fn blocks_of(r: &Req) -> Vec<Vec<CscMatrix<f64>>> {
+    r.us("lens")
+        .iter()
+        .enumerate()
+        .map(|(i, &len)| (0..len).map(|c| r.csc(&format!("b{}_{}_", i, c))).collect())
+        .collect()
+}
+fn run_hcat(r: &Req) -> String {
+    fmt_cat(CscMatrix::hcat(&r.csc("a"), &r.csc("b")))
+}
+fn run_vcat(r: &Req) -> String {
+    fmt_cat(CscMatrix::vcat(&r.csc("a"), &r.csc("b")))
+}
+fn run_blockdiag(r: &Req) -> String {
+    let mats: Vec<CscMatrix<f64>> = (0..r.u("k")).map(|i| r.csc(&format!("b{}_", i))).collect();
+    let refs: Vec<&CscMatrix<f64>> = mats.iter().collect();
+    fmt_cat(CscMatrix::blockdiag(&refs))
+}
+fn run_hvcat(r: &Req) -> String {
+    let blocks = blocks_of(r);
+    let rows: Vec<Vec<&CscMatrix<f64>>> = blocks.iter().map(|br| br.iter().collect()).collect();
+    let refs: Vec<&[&CscMatrix<f64>]> = rows.iter().map(|v| v.as_slice()).collect();
+    fmt_cat(CscMatrix::hvcat(&refs))
+}
+/// dense block assembly; `None` = dimensions inconsistent
+fn dense_hvcat(blocks: &[Vec<CscMatrix<f64>>]) -> Option<Dense> {
+    if blocks.is_empty() || blocks[0].is_empty() {
+        return None;
+    }
+    let nbc = blocks[0].len();
+    if blocks.iter().any(|br| br.len() != nbc) {
+        return None;
+    }
+    for br in blocks {
+        if br.iter().any(|b| b.m != br[0].m) {
+            return None;
+        }
+    }
+    for c in 0..nbc {
+        if blocks.iter().any(|br| br[c].n != blocks[0][c].n) {
+            return None;
+        }
+    }
+    let mut out: Dense = vec![];
+    for br in blocks {
+        let ds: Vec<Dense> = br.iter().map(gen::to_dense).collect();
+        for i in 0..br[0].m {
+            let mut row = vec![];
+            for d in &ds {
+                row.extend_from_slice(&d[i]);
+            }
+            out.push(row);
+        }
+    }
+    Some(out)
+}
+fn cat_oracle(blocks: &[Vec<CscMatrix<f64>>], out: &str) -> Result<(), String> {
+    if !blocks.iter().flatten().all(canonical) {
+        return Ok(());
+    }
+    match dense_hvcat(blocks) {
+        None => {
+            if out == "err:IncompatibleDimension" { Ok(()) } else { Err(format!("inconsistent blocks gave {}", out)) }
+        }
+        Some(want) => {
+            let (t, dt) = dense_of_resp(out).ok_or(format!("consistent blocks gave {}", out))?;
+            if !canonical(&t) {
+                return Err("result not canonical".into());
+            }
+            let ncols: usize = blocks[0].iter().map(|b| b.n).sum();
+            if t.m != want.len() || t.n != ncols {
+                return Err("shape".into());
+            }
+            same_dense(&dt, &want)?;
+            let nnz: usize = blocks.iter().flatten().map(|b| b.nnz()).sum();
+            if t.nnz() != nnz {
+                return Err("nnz".into());
+            }
+            Ok(())
+        }
+    }
+}
+fn oracle_hcat(r: &Req, out: &str) -> Result<(), String> { cat_oracle(&[vec![r.csc("a"), r.csc("b")]], out) }
+fn oracle_vcat(r: &Req, out: &str) -> Result<(), String> { cat_oracle(&[vec![r.csc("a")], vec![r.csc("b")]], out) }
+fn oracle_hvcat(r: &Req, out: &str) -> Result<(), String> { cat_oracle(&blocks_of(r), out) }
+fn oracle_blockdiag(r: &Req, out: &str) -> Result<(), String> {
+    let mats: Vec<CscMatrix<f64>> = (0..r.u("k")).map(|i| r.csc(&format!("b{}_", i))).collect();
+    if !mats.iter().all(canonical) {
+        return Ok(());
+    }
+    if mats.is_empty() {
+        return if out == "err:IncompatibleDimension" { Ok(()) } else { Err("empty list accepted".into()) };
+    }
+    let (t, dt) = dense_of_resp(out).ok_or("no matrix returned")?;
+    if !canonical(&t) {
+        return Err("result not canonical".into());
+    }
+    let (m, n): (usize, usize) = (mats.iter().map(|b| b.m).sum(), mats.iter().map(|b| b.n).sum());
+    let mut want = vec![vec![0.0; n]; m];
+    let (mut r0, mut c0) = (0, 0);
+    for b in &mats {
+        let d = gen::to_dense(b);
+        for i in 0..b.m {
+            for j in 0..b.n {
+                want[r0 + i][c0 + j] = d[i][j];
+            }
+        }
+        r0 += b.m;
+        c0 += b.n;
+    }
+    if t.m != m || t.n != n {
+        return Err("shape".into());
+    }
+    same_dense(&dt, &want)?;
+    if t.nnz() != mats.iter().map(|b| b.nnz()).sum::<usize>() {
+        return Err("nnz".into());
+    }
+    Ok(())
+}
+
+// ---------------------------------------------------------------- vecmath.rs
+
+fn val(x: f64) -> String {
+    format!("v={}", ff(x))
+}
+fn xs(r: &Req) -> Vec<f64> {
+    r.fs("x")
+}
+fn run_v_dot(r: &Req) -> String { val(xs(r).dot(&r.fs("y"))) }
+fn run_v_sumsq(r: &Req) -> String { val(xs(r).sumsq()) }
+fn run_v_sum(r: &Req) -> String { val(xs(r).sum()) }
+fn run_v_norm(r: &Req) -> String { val(xs(r).norm()) }
+fn run_v_norm_inf(r: &Req) -> String { val(xs(r).norm_inf()) }
+fn run_v_norm_one(r: &Req) -> String { val(xs(r).norm_one()) }
+fn run_v_norm_scaled(r: &Req) -> String { val(xs(r).norm_scaled(&r.fs("y"))) }
+fn run_v_norm_inf_scaled(r: &Req) -> String { val(xs(r).norm_inf_scaled(&r.fs("y"))) }
+fn run_v_mean(r: &Req) -> String { val(xs(r).mean()) }
+fn run_v_minimum(r: &Req) -> String { val(xs(r).minimum()) }
+fn run_v_maximum(r: &Req) -> String { val(xs(r).maximum()) }
+fn xout(x: &[f64]) -> String {
+    format!("x={}", ffs(x))
+}
+fn run_v_negate(r: &Req) -> String { let mut x = xs(r); VectorMath::negate(&mut x[..]); xout(&x) }
+fn run_v_recip(r: &Req) -> String { let mut x = xs(r); VectorMath::recip(&mut x[..]); xout(&x) }
+fn run_v_sqrt(r: &Req) -> String { let mut x = xs(r); VectorMath::sqrt(&mut x[..]); xout(&x) }
+fn run_v_rsqrt(r: &Req) -> String { let mut x = xs(r); VectorMath::rsqrt(&mut x[..]); xout(&x) }
+fn run_v_hadamard(r: &Req) -> String { let mut x = xs(r); VectorMath::hadamard(&mut x[..], &r.fs("y")); xout(&x) }
+fn run_v_scale(r: &Req) -> String { let mut x = xs(r); VectorMath::scale(&mut x[..], r.f("c")); xout(&x) }
+fn run_v_translate(r: &Req) -> String { let mut x = xs(r); VectorMath::translate(&mut x[..], r.f("c")); xout(&x) }
+fn run_v_clip(r: &Req) -> String { let mut x = xs(r); VectorMath::clip(&mut x[..], r.f("lo"), r.f("hi")); xout(&x) }
+fn run_v_select(r: &Req) -> String { xout(&VectorMath::select(&xs(r)[..], &r.bs("idx"))) }
+fn run_v_axpby(r: &Req) -> String {
+    let mut y = r.fs("y");
+    VectorMath::axpby(&mut y[..], r.f("a"), &r.fs("x"), r.f("b"));
+    format!("y={}", ffs(&y))
+}
+fn run_v_waxpby(r: &Req) -> String {
+    let x = r.fs("x");
+    let mut w = vec![0.0; x.len()];
+    VectorMath::waxpby(&mut w[..], r.f("a"), &x, r.f("b"), &r.fs("y"));
+    format!("w={}", ffs(&w))
+}
+fn run_v_dot_shifted(r: &Req) -> String {
+    val(<[f64] as VectorMath<f64>>::dot_shifted(&r.fs("z"), &r.fs("s"), &r.fs("dz"), &r.fs("ds"), r.f("a")))
+}
+/// meaning of the scalar reductions, on finite data, with a rounding allowance
+fn oracle_v_reduce(r: &Req, out: &str) -> Result<(), String> {
+    let x = xs(r);
+    let y = if r.has("y") { r.fs("y") } else { vec![] };
+    if !all_finite(&x) || !all_finite(&y) || x.iter().chain(y.iter()).any(|v| v.abs() > 1e100) {
+        return Ok(());
+    }
+    let o = match resp(out) { Some(o) => o, None => return Ok(()) };
+    let v = o.f("v");
+    let (want, scale): (f64, f64) = match r.chan.as_str() {
+        "vec.dot" => (x.iter().zip(&y).map(|(a, b)| a * b).sum(), x.iter().zip(&y).map(|(a, b)| (a * b).abs()).sum()),
+        "vec.sumsq" => (x.iter().map(|a| a * a).sum(), x.iter().map(|a| a * a).sum()),
+        "vec.sum" => (x.iter().sum(), x.iter().map(|a| a.abs()).sum()),
+        "vec.norm" => { let s: f64 = x.iter().map(|a| a * a).sum(); (s.sqrt(), s.sqrt()) }
+        "vec.norm_inf" => (x.iter().fold(0.0, |m, a| m.max(a.abs())), 0.0),
+        "vec.norm_one" => (x.iter().map(|a| a.abs()).sum(), x.iter().map(|a| a.abs()).sum()),
+        "vec.mean" => {
+            if x.is_empty() { (0.0, 0.0) } else {
+                (x.iter().sum::<f64>() / x.len() as f64, x.iter().map(|a| a.abs()).sum::<f64>())
+            }
+        }
+        "vec.minimum" => (x.iter().cloned().fold(f64::INFINITY, f64::min), 0.0),
+        "vec.maximum" => (x.iter().cloned().fold(f64::NEG_INFINITY, f64::max), 0.0),
+        _ => return Ok(()),
+    };
+    if !close(v, want, scale) {
+        return Err(format!("{} = {:e} expected {:e}", r.chan, v, want));
+    }
+    Ok(())
+}
+
+macro_rules! ch {
+    ($name:expr, $tol:expr, $run:expr, $oracle:expr, $rust:expr, $lean:expr) => {
+        Channel { name: $name, tol: $tol, run: $run, oracle: $oracle, modelled: true, rust_fn: $rust, lean: $lean }
+    };
+}
+
 fn channels() -> Vec<Channel> {
+    let e = Tol::Exact;
     vec![
-        Channel { name: "csc.check_format", tol: Tol::Exact, run: run_check_format, oracle: Some(oracle_check_format),
-            modelled: true, rust_fn: "CscMatrix::check_format", lean: "Csc.checkFormat / C16.check_format_iff" },
-        Channel { name: "csc.to_triu", tol: Tol::Exact, run: run_to_triu, oracle: Some(oracle_to_triu),
-            modelled: true, rust_fn: "CscMatrix::to_triu", lean: "Csc.toTriu / C16.to_triu_dense" },
-        Channel { name: "csc.is_triu", tol: Tol::Exact, run: run_is_triu, oracle: Some(oracle_is_triu),
-            modelled: true, rust_fn: "CscMatrix::is_triu", lean: "Csc.isTriu" },
-        Channel { name: "csc.select_rows", tol: Tol::Exact, run: run_select_rows, oracle: Some(oracle_select_rows),
-            modelled: true, rust_fn: "CscMatrix::select_rows", lean: "Csc.selectRows / C16.select_rows_dense" },
-        Channel { name: "csc.transpose", tol: Tol::Exact, run: run_transpose, oracle: Some(oracle_transpose),
-            modelled: true, rust_fn: "From<Adjoint<CscMatrix>>", lean: "Csc.transpose / C16.transpose_dense" },
+        ch!("csc.check_format", e, run_check_format, Some(oracle_check_format), "CscMatrix::check_format", "Csc.checkFormat / C16.check_format_iff"),
+        ch!("csc.to_triu", e, run_to_triu, Some(oracle_to_triu), "CscMatrix::to_triu", "Csc.toTriu / C16.toTriu_spec"),
+        ch!("csc.is_triu", e, run_is_triu, Some(oracle_is_triu), "CscMatrix::is_triu", "Csc.isTriu"),
+        ch!("csc.select_rows", e, run_select_rows, Some(oracle_select_rows), "CscMatrix::select_rows", "Csc.selectRows / C16.selectRows_spec"),
+        ch!("csc.transpose", e, run_transpose, Some(oracle_transpose), "From<Adjoint<CscMatrix>>", "Csc.transpose / C16.transpose_dense, C16.transpose_canonical"),
+        ch!("csc.from_rows", e, run_from_rows, Some(oracle_from_rows), "CscMatrix::from(rows)", "Csc.fromRows"),
+        ch!("csc.new_from_triplets", e, run_new_from_triplets, Some(oracle_new_from_triplets), "CscMatrix::new_from_triplets", "Csc.newFromTriplets / C16.newFromTriplets_spec"),
+        ch!("csc.spalloc", e, run_spalloc, Some(oracle_spalloc), "CscMatrix::spalloc", "Csc.spalloc"),
+        ch!("csc.zeros", e, run_zeros, Some(oracle_zeros), "CscMatrix::zeros", "Csc.zeros"),
+        ch!("csc.identity", e, run_identity, Some(oracle_identity), "CscMatrix::identity", "Csc.identity"),
+        ch!("csc.dropzeros", e, run_dropzeros, Some(oracle_dropzeros), "CscMatrix::dropzeros", "Csc.dropzeros"),
+        ch!("csc.findnz", e, run_findnz, Some(oracle_findnz), "CscMatrix::findnz", "Csc.findnz"),
+        ch!("csc.canonicalize", e, run_canonicalize, Some(oracle_canonicalize), "CscMatrix::canonicalize (sort_indices, deduplicate)", "Csc.canonicalize / C16.canonicalize_spec"),
+        ch!("csc.is_equal_sparsity", e, run_is_equal_sparsity, Some(oracle_is_equal_sparsity), "CscMatrix::is_equal_sparsity", "Csc.isEqualSparsity"),
+        ch!("csc.check_equal_sparsity", e, run_check_equal_sparsity, Some(oracle_check_equal_sparsity), "CscMatrix::check_equal_sparsity", "Csc.checkEqualSparsity"),
+        ch!("csc.get_entry", e, run_get_entry, Some(oracle_get_entry), "CscMatrix::get_entry", "Csc.getEntry / C16.getEntry_eq"),
+        ch!("csc.set_entry", e, run_set_entry, Some(oracle_set_entry), "CscMatrix::set_entry", "Csc.setEntry / C16.setEntry_getEntry"),
+        ch!("csc.index_to_coord", e, run_index_to_coord, Some(oracle_index_to_coord), "CscMatrix::index_to_coord", "Csc.indexToCoord"),
+        ch!("csc.gemv_n", e, run_gemv_n, Some(oracle_gemv_n), "_csc_axpby_N (MatrixVectorMultiply::gemv)", "Csc.gemvN / C16.gemvN_spec"),
+        ch!("csc.gemv_t", e, run_gemv_t, Some(oracle_gemv_t), "_csc_axpby_T (Adjoint gemv)", "Csc.gemvT / C16.gemvT_spec"),
+        ch!("csc.symv", e, run_symv, Some(oracle_symv), "_csc_symv_unsafe (SymMatrixVectorMultiply::symv)", "Csc.symv"),
+        ch!("csc.quad_form", e, run_quad_form, Some(oracle_quad_form), "_csc_quad_form", "Csc.quadForm"),
+        ch!("csc.col_sums", e, run_col_sums, Some(oracle_col_sums), "MatrixMath::col_sums", "Csc.colSums"),
+        ch!("csc.row_sums", e, run_row_sums, Some(oracle_row_sums), "MatrixMath::row_sums", "Csc.rowSums"),
+        ch!("csc.col_norms", e, run_col_norms, Some(oracle_col_norms), "MatrixMath::col_norms", "Csc.colNorms"),
+        ch!("csc.col_norms_no_reset", e, run_col_norms_no_reset, Some(oracle_col_norms_nr), "MatrixMath::col_norms_no_reset", "Csc.colNormsNoReset"),
+        ch!("csc.col_norms_sym", e, run_col_norms_sym, Some(oracle_sym_norms), "MatrixMath::col_norms_sym", "Csc.colNormsSym"),
+        ch!("csc.col_norms_sym_no_reset", e, run_col_norms_sym_no_reset, Some(oracle_sym_norms_nr), "MatrixMath::col_norms_sym_no_reset", "Csc.colNormsSymNoReset"),
+        ch!("csc.row_norms", e, run_row_norms, Some(oracle_row_norms), "MatrixMath::row_norms", "Csc.rowNorms"),
+        ch!("csc.row_norms_no_reset", e, run_row_norms_no_reset, Some(oracle_row_norms_nr), "MatrixMath::row_norms_no_reset", "Csc.rowNormsNoReset"),
+        ch!("csc.scale", e, run_scale, Some(oracle_scale), "MatrixMathMut::scale", "Csc.scale"),
+        ch!("csc.negate", e, run_negate, Some(oracle_negate), "MatrixMathMut::negate", "Csc.negate"),
+        ch!("csc.lscale", e, run_lscale, Some(oracle_lscale), "MatrixMathMut::lscale", "Csc.lscale"),
+        ch!("csc.rscale", e, run_rscale, Some(oracle_rscale), "MatrixMathMut::rscale", "Csc.rscale"),
+        ch!("csc.lrscale", e, run_lrscale, Some(oracle_lrscale), "MatrixMathMut::lrscale", "Csc.lrscale"),
+        ch!("csc.hcat", e, run_hcat, Some(oracle_hcat), "BlockConcatenate::hcat", "Csc.hcat"),
+        ch!("csc.vcat", e, run_vcat, Some(oracle_vcat), "BlockConcatenate::vcat", "Csc.vcat"),
+        ch!("csc.blockdiag", e, run_blockdiag, Some(oracle_blockdiag), "BlockConcatenate::blockdiag", "Csc.blockdiag"),
+        ch!("csc.hvcat", e, run_hvcat, Some(oracle_hvcat), "BlockConcatenate::hvcat + hvcat_dim_check", "Csc.hvcat / Csc.hvcatDimCheck"),
+        ch!("vec.dot", e, run_v_dot, Some(oracle_v_reduce), "VectorMath::dot", "Vec.dot"),
+        ch!("vec.sumsq", e, run_v_sumsq, Some(oracle_v_reduce), "VectorMath::sumsq", "Vec.sumsq"),
+        ch!("vec.sum", e, run_v_sum, Some(oracle_v_reduce), "VectorMath::sum", "Vec.sum"),
+        ch!("vec.norm", e, run_v_norm, Some(oracle_v_reduce), "VectorMath::norm", "Vec.norm"),
+        ch!("vec.norm_inf", e, run_v_norm_inf, Some(oracle_v_reduce), "VectorMath::norm_inf", "Vec.normInf"),
+        ch!("vec.norm_one", e, run_v_norm_one, Some(oracle_v_reduce), "VectorMath::norm_one", "Vec.normOne"),
+        ch!("vec.norm_scaled", e, run_v_norm_scaled, None, "VectorMath::norm_scaled", "Vec.normScaled"),
+        ch!("vec.norm_inf_scaled", e, run_v_norm_inf_scaled, None, "VectorMath::norm_inf_scaled", "Vec.normInfScaled"),
+        ch!("vec.mean", e, run_v_mean, Some(oracle_v_reduce), "VectorMath::mean", "Vec.mean"),
+        ch!("vec.minimum", e, run_v_minimum, Some(oracle_v_reduce), "VectorMath::minimum", "Vec.minimum?"),
+        ch!("vec.maximum", e, run_v_maximum, Some(oracle_v_reduce), "VectorMath::maximum", "Vec.maximum?"),
+        ch!("vec.negate", e, run_v_negate, None, "VectorMath::negate", "Vec.negate"),
+        ch!("vec.recip", e, run_v_recip, None, "VectorMath::recip", "Vec.recip"),
+        ch!("vec.sqrt", e, run_v_sqrt, None, "VectorMath::sqrt", "Vec.vsqrt"),
+        ch!("vec.rsqrt", e, run_v_rsqrt, None, "VectorMath::rsqrt", "Vec.rsqrt"),
+        ch!("vec.hadamard", e, run_v_hadamard, None, "VectorMath::hadamard", "Vec.hadamard"),
+        ch!("vec.scale", e, run_v_scale, None, "VectorMath::scale", "Vec.scale"),
+        ch!("vec.translate", e, run_v_translate, None, "VectorMath::translate", "Vec.translate"),
+        ch!("vec.clip", e, run_v_clip, None, "VectorMath::clip / ScalarMath::clip", "Vec.clip"),
+        ch!("vec.select", e, run_v_select, None, "VectorMath::select", "Vec.select"),
+        ch!("vec.axpby", e, run_v_axpby, None, "VectorMath::axpby", "Vec.axpby"),
+        ch!("vec.waxpby", e, run_v_waxpby, None, "VectorMath::waxpby", "Vec.waxpby"),
+        ch!("vec.dot_shifted", e, run_v_dot_shifted, None, "VectorMath::dot_shifted", "Vec.dotShifted"),
     ]
 }
 
 // ---------------------------------------------------------------- generators
 
 /// all canonical patterns of an m×n matrix, values drawn from a small-integer family
-fn exhaustive_patterns(s: &mut Session, m: usize, n: usize, f: &dyn Fn(&mut Session, &CscMatrix<f64>)) {
+fn exhaustive_patterns(s: &mut Session, m: usize, n: usize, f: &dyn Fn(&mut Session, &CscMatrix<f64>, bool)) {
     let cells = m * n;
     for mask in 0u32..(1u32 << cells) {
         let mut colptr = vec![0];
@@ -192,19 +1144,97 @@ fn exhaustive_patterns(s: &mut Session, m: usize, n: usize, f: &dyn Fn(&mut Sess
             colptr.push(rowval.len());
         }
         let a = CscMatrix::new(m, n, colptr, rowval, nzval);
-        f(s, &a);
+        f(s, &a, true);
     }
 }
 
-fn ops_on(s: &mut Session, a: &CscMatrix<f64>) {
+#[derive(Clone, Copy)]
+enum VK {
+    Int,
+    Float,
+}
+fn vecv(s: &mut Session, n: usize, k: VK) -> Vec<f64> {
+    match k {
+        VK::Int => gen::vec_of(&mut s.rng, n, Vals::SmallInt(3)),
+        VK::Float => {
+            if s.rng.bool(0.5) {
+                gen::vec_of(&mut s.rng, n, Vals::Normal)
+            } else {
+                gen::vec_of(&mut s.rng, n, Vals::LogMag(-8.0, 8.0))
+            }
+        }
+    }
+}
+fn coef(s: &mut Session, k: VK) -> f64 {
+    match s.rng.below(6) {
+        0 => 0.0,
+        1 => 1.0,
+        2 => -1.0,
+        3 => -0.0,
+        _ => match k {
+            VK::Int => s.rng.smallint(3),
+            VK::Float => s.rng.normal(),
+        },
+    }
+}
+
+/// operations defined for any well-dimensioned matrix (sorted or not, duplicates or not)
+fn ops_any(s: &mut Session, a: &CscMatrix<f64>, k: VK) {
     s.submit(Line::new("csc.check_format").csc("", a).done());
     s.submit(Line::new("csc.transpose").csc("", a).done());
     s.submit(Line::new("csc.is_triu").csc("", a).done());
+    s.submit(Line::new("csc.dropzeros").csc("", a).done());
+    s.submit(Line::new("csc.canonicalize").csc("", a).done());
+    s.submit(Line::new("csc.findnz").csc("", a).done());
     if a.m == a.n {
         s.submit(Line::new("csc.to_triu").csc("", a).done());
     }
+    // gemv, all fast-path combinations over the run
+    let (ca, cb) = (coef(s, k), coef(s, k));
+    let (x, y) = (vecv(s, a.n, k), vecv(s, a.m, k));
+    s.submit(Line::new("csc.gemv_n").csc("", a).fs("y", &y).fs("x", &x).f("a", ca).f("b", cb).done());
+    let (ca, cb) = (coef(s, k), coef(s, k));
+    let (x, y) = (vecv(s, a.m, k), vecv(s, a.n, k));
+    s.submit(Line::new("csc.gemv_t").csc("", a).fs("y", &y).fs("x", &x).f("a", ca).f("b", cb).done());
+    // sums and norms
+    let vn = vecv(s, a.n, k);
+    let vm = vecv(s, a.m, k);
+    let vn_abs: Vec<f64> = vn.iter().map(|v| v.abs()).collect();
+    let vm_abs: Vec<f64> = vm.iter().map(|v| v.abs()).collect();
+    s.submit(Line::new("csc.col_sums").csc("", a).fs("v", &vn).done());
+    s.submit(Line::new("csc.row_sums").csc("", a).fs("v", &vm).done());
+    s.submit(Line::new("csc.col_norms").csc("", a).fs("v", &vn).done());
+    s.submit(Line::new("csc.col_norms_no_reset").csc("", a).fs("v", &vn_abs).done());
+    s.submit(Line::new("csc.row_norms").csc("", a).fs("v", &vm).done());
+    s.submit(Line::new("csc.row_norms_no_reset").csc("", a).fs("v", &vm_abs).done());
+    if a.m == a.n {
+        s.submit(Line::new("csc.col_norms_sym").csc("", a).fs("v", &vn).done());
+        s.submit(Line::new("csc.col_norms_sym_no_reset").csc("", a).fs("v", &vn_abs).done());
+    }
+    // scalings
+    let c = coef(s, k);
+    s.submit(Line::new("csc.scale").csc("", a).f("c", c).done());
+    s.submit(Line::new("csc.negate").csc("", a).done());
+    let (l, r) = (vecv(s, a.m, k), vecv(s, a.n, k));
+    s.submit(Line::new("csc.lscale").csc("", a).fs("l", &l).done());
+    s.submit(Line::new("csc.rscale").csc("", a).fs("r", &r).done());
+    s.submit(Line::new("csc.lrscale").csc("", a).fs("l", &l).fs("r", &r).done());
+    // index_to_coord: every index for small matrices, plus one out of range
+    let nnz = a.nnz();
+    if nnz <= 9 {
+        for idx in 0..=nnz {
+            s.submit(Line::new("csc.index_to_coord").csc("", a).u("idx", idx).done());
+        }
+    } else {
+        let idx = s.rng.below(nnz + 1);
+        s.submit(Line::new("csc.index_to_coord").csc("", a).u("idx", idx).done());
+    }
+}
+
+/// operations that need sorted, duplicate-free columns
+fn ops_canonical(s: &mut Session, a: &CscMatrix<f64>, exhaustive: bool, k: VK) {
     // every keep mask for small m, random otherwise
-    if a.m <= 3 {
+    if a.m <= 3 && exhaustive {
         for km in 0u32..(1 << a.m) {
             let keep: Vec<bool> = (0..a.m).map(|i| km >> i & 1 == 1).collect();
             s.submit(Line::new("csc.select_rows").csc("", a).bs("keep", &keep).done());
@@ -213,6 +1243,59 @@ fn ops_on(s: &mut Session, a: &CscMatrix<f64>) {
         let keep: Vec<bool> = (0..a.m).map(|_| s.rng.bool(0.6)).collect();
         s.submit(Line::new("csc.select_rows").csc("", a).bs("keep", &keep).done());
     }
+    // get/set: every position (and one out of bounds each way) for small matrices
+    let positions: Vec<(usize, usize)> = if a.m * a.n <= 9 && exhaustive {
+        let mut p: Vec<(usize, usize)> = (0..a.m).flat_map(|i| (0..a.n).map(move |j| (i, j))).collect();
+        p.push((a.m, 0));
+        p.push((0, a.n));
+        p
+    } else {
+        (0..3).map(|_| (s.rng.below(a.m + 1), s.rng.below(a.n + 1))).collect()
+    };
+    for (i, j) in positions {
+        s.submit(Line::new("csc.get_entry").csc("", a).u("row", i).u("col", j).done());
+        let v = match s.rng.below(4) {
+            0 => 0.0,
+            1 => -0.0,
+            _ => match k {
+                VK::Int => s.rng.smallint(3),
+                VK::Float => s.rng.normal(),
+            },
+        };
+        s.submit(Line::new("csc.set_entry").csc("", a).u("row", i).u("col", j).f("v", v).done());
+    }
+    if a.m == a.n {
+        let (ca, cb) = (coef(s, k), coef(s, k));
+        let (x, y) = (vecv(s, a.n, k), vecv(s, a.n, k));
+        // symv reads only what is stored; any canonical square matrix is memory safe
+        s.submit(Line::new("csc.symv").csc("", a).fs("y", &y).fs("x", &x).f("a", ca).f("b", cb).done());
+        s.submit(Line::new("csc.quad_form").csc("", a).fs("y", &y).fs("x", &x).done());
+        let t = a.to_triu();
+        let (ca, cb) = (coef(s, k), coef(s, k));
+        s.submit(Line::new("csc.symv").csc("", &t).fs("y", &y).fs("x", &x).f("a", ca).f("b", cb).done());
+        s.submit(Line::new("csc.quad_form").csc("", &t).fs("y", &y).fs("x", &x).done());
+    }
+}
+
+fn ops_on(s: &mut Session, a: &CscMatrix<f64>, exhaustive: bool) {
+    ops_any(s, a, VK::Int);
+    ops_canonical(s, a, exhaustive, VK::Int);
+}
+
+/// well-dimensioned matrix with unsorted columns and duplicate entries
+fn noncanonical(s: &mut Session, m: usize, n: usize, vals: Vals) -> CscMatrix<f64> {
+    let mut colptr = vec![0usize];
+    let mut rowval = vec![];
+    let mut nzval = vec![];
+    for _ in 0..n {
+        let k = if m == 0 { 0 } else { s.rng.below(5) };
+        for _ in 0..k {
+            rowval.push(s.rng.below(m));
+            nzval.push(gen::value(&mut s.rng, vals));
+        }
+        colptr.push(rowval.len());
+    }
+    CscMatrix { m, n, colptr, rowval, nzval }
 }
 
 fn malformed(s: &mut Session) {
@@ -230,6 +1313,193 @@ fn malformed(s: &mut Session) {
     }
     s.count("malformed");
     s.submit(Line::new("csc.check_format").csc("", &a).done());
+    // canonicalize rejects through check_dimensions; encodings that pass it but start
+    // at colptr[0] != 0 are outside the model's domain
+    if a.colptr.first() == Some(&0) || !welldim_but_shifted(&a) {
+        s.submit(Line::new("csc.canonicalize").csc("", &a).done());
+    }
+}
+fn welldim_but_shifted(a: &CscMatrix<f64>) -> bool {
+    a.rowval.len() == a.nzval.len()
+        && a.colptr.len() == a.n + 1
+        && a.colptr[a.n] == a.rowval.len()
+        && a.colptr.windows(2).all(|w| w[0] <= w[1])
+        && a.colptr[0] != 0
+}
+
+/// every sequence of `len` cells of an m×n grid as a triplet list (covers every multiset
+/// in every order), small integer values
+fn triplet_sequences(s: &mut Session, m: usize, n: usize, len: usize) {
+    let cells = m * n;
+    let total = cells.pow(len as u32);
+    for code in 0..total {
+        let mut c = code;
+        let (mut i, mut j, mut v) = (vec![], vec![], vec![]);
+        for _ in 0..len {
+            let cell = c % cells;
+            c /= cells;
+            i.push(cell % m);
+            j.push(cell / m);
+            v.push(s.rng.smallint(2));
+        }
+        s.submit(Line::new("csc.new_from_triplets").u("m", m).u("n", n).us("I", &i).us("J", &j).fs("V", &v).done());
+    }
+    s.count(&format!("triplets:{}x{}:len{}", m, n, len));
+}
+
+fn random_triplets(s: &mut Session) {
+    let (m, n) = (s.rng.below(7), s.rng.below(7));
+    let len = s.rng.below(12);
+    let kind = s.rng.below(10);
+    let (mut i, mut j, mut v) = (vec![], vec![], vec![]);
+    for _ in 0..len {
+        // kind 0: a column index equal to n (silently dropped by the code), kind 1: beyond n
+        // (index panic), kind 2: row out of range (unchecked) — only the correspondence is compared
+        let jj = match kind {
+            0 if s.rng.bool(0.3) => n,
+            1 if s.rng.bool(0.2) => n + 1 + s.rng.below(2),
+            _ => if n == 0 { 0 } else { s.rng.below(n) },
+        };
+        let ii = match kind {
+            2 if s.rng.bool(0.3) => m + s.rng.below(2),
+            _ => if m == 0 { 0 } else { s.rng.below(m) },
+        };
+        if (m == 0 || n == 0) && kind > 2 {
+            continue;
+        }
+        i.push(ii);
+        j.push(jj);
+        v.push(if s.rng.bool(0.7) { s.rng.smallint(3) } else { s.rng.normal() });
+    }
+    if kind == 3 && !v.is_empty() {
+        v.pop(); // length mismatch → assert
+    }
+    s.submit(Line::new("csc.new_from_triplets").u("m", m).u("n", n).us("I", &i).us("J", &j).fs("V", &v).done());
+}
+
+fn from_rows_cases(s: &mut Session) {
+    let (m, n) = (s.rng.below(6), s.rng.below(6));
+    let ragged = s.rng.bool(0.1) && m >= 2;
+    let mut l = Line::new("csc.from_rows").u("nrows", m);
+    for r in 0..m {
+        let len = if ragged && r == m - 1 { n + 1 } else { n };
+        let row: Vec<f64> = (0..len)
+            .map(|_| match s.rng.below(6) {
+                0 | 1 => 0.0,
+                2 => -0.0,
+                3 => s.rng.normal(),
+                _ => s.rng.smallint(3),
+            })
+            .collect();
+        l = l.fs(&format!("r{}", r), &row);
+    }
+    s.submit(l.done());
+}
+
+fn small_canon(s: &mut Session, m: usize, n: usize) -> CscMatrix<f64> {
+    let p = *s.rng.choose(&[0.0, 0.3, 0.6, 1.0]);
+    gen::csc(&mut s.rng, m, n, p, Vals::SmallInt(3))
+}
+
+fn concat_cases(s: &mut Session) {
+    // hcat / vcat: mostly compatible, sometimes not
+    let (m, n1, n2) = (s.rng.below(5), s.rng.below(5), s.rng.below(5));
+    let m2 = if s.rng.bool(0.2) { m + 1 } else { m };
+    let (a, b) = (small_canon(s, m, n1), small_canon(s, m2, n2));
+    s.submit(Line::new("csc.hcat").csc("a", &a).csc("b", &b).done());
+    let (at, bt): (CscMatrix<f64>, CscMatrix<f64>) = (a.t().into(), b.t().into());
+    s.submit(Line::new("csc.vcat").csc("a", &at).csc("b", &bt).done());
+    // blockdiag of 0..3 blocks
+    let k = s.rng.below(4);
+    let mut l = Line::new("csc.blockdiag").u("k", k);
+    for i in 0..k {
+        let (bm, bn) = (s.rng.below(4), s.rng.below(4));
+        let b = small_canon(s, bm, bn);
+        l = l.csc(&format!("b{}_", i), &b);
+    }
+    s.submit(l.done());
+    // hvcat grid
+    let (nbr, nbc) = (s.rng.below(4), 1 + s.rng.below(3));
+    let rows_h: Vec<usize> = (0..nbr).map(|_| s.rng.below(4)).collect();
+    let cols_w: Vec<usize> = (0..nbc).map(|_| s.rng.below(4)).collect();
+    let defect = s.rng.below(8);
+    let mut lens = vec![];
+    let mut l = Line::new("csc.hvcat");
+    for (bi, &h) in rows_h.iter().enumerate() {
+        let len = if defect == 0 && bi == nbr - 1 && nbr > 1 { nbc + 1 } else if defect == 1 && bi == 0 { 0 } else { nbc };
+        lens.push(len);
+        for bj in 0..len {
+            let w = *cols_w.get(bj).unwrap_or(&1);
+            let (hh, ww) = match defect {
+                2 if bi == nbr - 1 && bj == len - 1 => (h + 1, w),
+                3 if bi == nbr - 1 && bj == len - 1 => (h, w + 1),
+                _ => (h, w),
+            };
+            let b = small_canon(s, hh, ww);
+            l = l.csc(&format!("b{}_{}_", bi, bj), &b);
+        }
+    }
+    l = l.us("lens", &lens);
+    s.submit(l.done());
+}
+
+fn sparsity_cases(s: &mut Session) {
+    let (m, n) = (s.rng.below(5), s.rng.below(5));
+    let a = small_canon(s, m, n);
+    let mut b = a.clone();
+    match s.rng.below(5) {
+        0 => {}
+        1 => { for v in b.nzval.iter_mut() { *v += 1.0; } }
+        2 => { b = small_canon(s, m, n); }
+        3 => { b = small_canon(s, m + 1, n); }
+        _ => { b = small_canon(s, m, n + 1); }
+    }
+    s.submit(Line::new("csc.is_equal_sparsity").csc("a", &a).csc("b", &b).done());
+    s.submit(Line::new("csc.check_equal_sparsity").csc("a", &a).csc("b", &b).done());
+}
+
+fn special(s: &mut Session) -> f64 {
+    *s.rng.choose(&[0.0, -0.0, f64::NAN, f64::INFINITY, f64::NEG_INFINITY, 1.0, -1.0, 1e-310, 1e308, -1e308, f64::MIN_POSITIVE])
+}
+fn vec_special(s: &mut Session, n: usize) -> Vec<f64> {
+    let kind = s.rng.below(7);
+    (0..n)
+        .map(|_| match kind {
+            // leading / exclusive NaNs (minimum/maximum start from ±inf and skip them)
+            5 => f64::NAN,
+            6 => if s.rng.bool(0.6) { f64::NAN } else { special(s) },
+            0 => s.rng.smallint(3),
+            1 => s.rng.normal(),
+            2 => s.rng.logmag(-150.0, 150.0),
+            3 => if s.rng.bool(0.25) { special(s) } else { s.rng.normal() },
+            _ => s.rng.normal().abs() + 1e-3,
+        })
+        .collect()
+}
+fn vec_cases(s: &mut Session) {
+    let n = *s.rng.choose(&[0, 1, 2, 3, 5, 8, 17]);
+    let (x, y) = (vec_special(s, n), vec_special(s, n));
+    for ch in ["vec.sumsq", "vec.sum", "vec.norm", "vec.norm_inf", "vec.norm_one", "vec.mean", "vec.minimum", "vec.maximum",
+               "vec.negate", "vec.recip", "vec.sqrt", "vec.rsqrt"] {
+        s.submit(Line::new(ch).fs("x", &x).done());
+    }
+    for ch in ["vec.dot", "vec.norm_scaled", "vec.norm_inf_scaled", "vec.hadamard"] {
+        s.submit(Line::new(ch).fs("x", &x).fs("y", &y).done());
+    }
+    let c = if s.rng.bool(0.3) { special(s) } else { s.rng.normal() };
+    s.submit(Line::new("vec.scale").fs("x", &x).f("c", c).done());
+    s.submit(Line::new("vec.translate").fs("x", &x).f("c", c).done());
+    let (lo, hi) = (s.rng.normal(), s.rng.normal());
+    let (lo, hi) = if s.rng.bool(0.8) { (lo.min(hi), lo.max(hi)) } else { (lo, hi) };
+    s.submit(Line::new("vec.clip").fs("x", &x).f("lo", lo).f("hi", hi).done());
+    let idx: Vec<bool> = (0..n).map(|_| s.rng.bool(0.5)).collect();
+    s.submit(Line::new("vec.select").fs("x", &x).bs("idx", &idx).done());
+    let (a, b) = (coef(s, VK::Float), coef(s, VK::Float));
+    s.submit(Line::new("vec.axpby").f("a", a).fs("x", &x).f("b", b).fs("y", &y).done());
+    s.submit(Line::new("vec.waxpby").f("a", a).fs("x", &x).f("b", b).fs("y", &y).done());
+    let (dz, ds) = (vec_special(s, n), vec_special(s, n));
+    let al = s.rng.unit();
+    s.submit(Line::new("vec.dot_shifted").fs("z", &x).fs("s", &y).fs("dz", &dz).fs("ds", &ds).f("a", al).done());
 }
 
 fn generate(s: &mut Session) {
@@ -243,16 +1513,56 @@ fn generate(s: &mut Session) {
             exhaustive_patterns(s, m, n, &ops_on);
             s.count(&format!("exhaustive:{}x{}", m, n));
         }
+        // triplet sequences: all lengths ≤ 4 (thorough: ≤ 5) on 2×2, ≤ 3 (thorough ≤ 4) on 3×2 / 2×3
+        let maxlen = if s.thorough() { 5 } else { 4 };
+        for len in 0..=maxlen {
+            triplet_sequences(s, 2, 2, len);
+        }
+        for len in 0..=(maxlen - 1) {
+            triplet_sequences(s, 3, 2, len);
+            triplet_sequences(s, 2, 3, len);
+        }
+        for n in 0..6 {
+            s.submit(Line::new("csc.identity").u("n", n).done());
+            for m in 0..4 {
+                s.submit(Line::new("csc.zeros").u("m", m).u("n", n).done());
+                s.submit(Line::new("csc.spalloc").u("m", m).u("n", n).u("nnz", (m * n) % 5).done());
+            }
+        }
     }
-    for _ in 0..s.budget(400, 20000) {
+    for it in 0..s.budget(400, 20000) {
         let (m, n) = (s.rng.below(13), s.rng.below(13));
         let (m, n) = if s.rng.bool(0.3) { (m, m) } else { (m, n) };
         let p = *s.rng.choose(&[0.0, 0.1, 0.3, 0.6, 1.0]);
-        let a = gen::csc(&mut s.rng, m, n, p, Vals::SmallInt(3));
-        ops_on(s, &a);
+        let k = if it % 2 == 0 { VK::Int } else { VK::Float };
+        let vals = match k {
+            VK::Int => Vals::SmallInt(3),
+            VK::Float => if s.rng.bool(0.5) { Vals::Normal } else { Vals::LogMag(-6.0, 6.0) },
+        };
+        let a = gen::csc(&mut s.rng, m, n, p, vals);
+        ops_any(s, &a, k);
+        ops_canonical(s, &a, false, k);
+    }
+    for it in 0..s.budget(300, 10000) {
+        let (m, n) = (s.rng.below(7), s.rng.below(7));
+        let (m, n) = if s.rng.bool(0.3) { (m, m) } else { (m, n) };
+        let k = if it % 2 == 0 { VK::Int } else { VK::Float };
+        let vals = match k { VK::Int => Vals::SmallInt(3), VK::Float => Vals::Normal };
+        let a = noncanonical(s, m, n, vals);
+        s.count("noncanonical");
+        ops_any(s, &a, k);
     }
     for _ in 0..s.budget(300, 5000) {
         malformed(s);
+    }
+    for _ in 0..s.budget(300, 10000) {
+        random_triplets(s);
+        from_rows_cases(s);
+        concat_cases(s);
+        sparsity_cases(s);
+    }
+    for _ in 0..s.budget(200, 5000) {
+        vec_cases(s);
     }
 }
 
